@@ -626,7 +626,12 @@ impl<Backing : AsRef<[u32]> + AsMut<[u32]>> DrawTarget<Backing> {
     /// Pushes a new layer as the drawing target. This is used for implementing
     /// group opacity or blend effects.
     pub fn push_layer_with_blend(&mut self, opacity: f32, blend: BlendMode) {
-        let rect = self.clip_bounds();
+        let mut rect = self.clip_bounds();
+        // the clip can be an inverted box (disjoint clip rects) whose width * height
+        // is negative or a bogus positive number: such a layer is simply empty
+        if rect.is_empty() {
+            rect = IntRect::zero();
+        }
         self.layer_stack.push(Layer {
             rect,
             buf: vec![0; (rect.size().width * rect.size().height) as usize],
